@@ -176,7 +176,10 @@ pub fn escaped_rust_name(name: String) -> String {
         | "fn" | "for" | "if" | "impl" | "in" | "let" | "loop" | "match" | "mod" | "move"
         | "mut" | "pub" | "ref" | "return" | "self" | "Self" | "static" | "struct" | "super"
         | "trait" | "true" | "type" | "unsafe" | "use" | "where" | "while" | "async" | "await"
-        | "dyn" | "try" | "macro_rules" | "union" | "'static" => name + "_",
+        | "dyn" | "try" | "macro_rules" | "union" | "'static"
+        // reserved for future use, but already rejected as identifiers
+        | "abstract" | "become" | "box" | "do" | "final" | "gen" | "macro" | "override" | "priv"
+        | "typeof" | "unsized" | "virtual" | "yield" => name + "_",
         _ => name,
     }
 }
